@@ -33,19 +33,21 @@ MsgDigitS == "0123456789"
 
 MsgCh(s, i) == SubSeq(s, i, i)
 
-RECURSIVE MsgIndexFrom(_, _, _)
-MsgIndexFrom(c, s, i) ==
-  IF i > Len(s) THEN 0 ELSE IF MsgCh(s, i) = c THEN i ELSE MsgIndexFrom(c, s, i + 1)
-MsgIndex(c, s) == MsgIndexFrom(c, s, 1)
+\* constant-level tables (TLC evaluates them once)
+MsgLowerSet == {MsgCh(MsgLowerS, i) : i \in 1..26}
+MsgUpperSet == {MsgCh(MsgUpperS, i) : i \in 1..26}
+MsgDigitSet == {MsgCh(MsgDigitS, i) : i \in 1..10}
+MsgUpperMap == [c \in MsgLowerSet |-> MsgCh(MsgUpperS, CHOOSE i \in 1..26 : MsgCh(MsgLowerS, i) = c)]
+MsgLowerMap == [c \in MsgUpperSet |-> MsgCh(MsgLowerS, CHOOSE i \in 1..26 : MsgCh(MsgUpperS, i) = c)]
 
-MsgIsLower(c)  == MsgIndex(c, MsgLowerS) > 0
-MsgIsUpper(c)  == MsgIndex(c, MsgUpperS) > 0
-MsgIsDigit(c)  == MsgIndex(c, MsgDigitS) > 0
+MsgIsLower(c)  == c \in MsgLowerSet
+MsgIsUpper(c)  == c \in MsgUpperSet
+MsgIsDigit(c)  == c \in MsgDigitSet
 MsgIsLetter(c) == MsgIsLower(c) \/ MsgIsUpper(c)
 MsgIsAlnum(c)  == MsgIsLetter(c) \/ MsgIsDigit(c)
 
-MsgUpperC(c) == LET i == MsgIndex(c, MsgLowerS) IN IF i > 0 THEN MsgCh(MsgUpperS, i) ELSE c
-MsgLowerC(c) == LET i == MsgIndex(c, MsgUpperS) IN IF i > 0 THEN MsgCh(MsgLowerS, i) ELSE c
+MsgUpperC(c) == IF c \in MsgLowerSet THEN MsgUpperMap[c] ELSE c
+MsgLowerC(c) == IF c \in MsgUpperSet THEN MsgLowerMap[c] ELSE c
 
 RECURSIVE MsgLowerFrom(_, _)
 MsgLowerFrom(s, i) == IF i > Len(s) THEN "" ELSE MsgLowerC(MsgCh(s, i)) \o MsgLowerFrom(s, i + 1)
@@ -171,7 +173,12 @@ MsgInnerOf(top) ==
         THEN MsgFlatCases(Head(top).cases) \o MsgSubstOf(Head(top).dflt) ELSE <<>>)
        \o MsgInnerOf(Tail(top))
 
-MsgNodes(body) == MsgSubstOf(body) \o MsgInnerOf(MsgSubstOf(body))
+\* the parts that get a name, in visiting order
+MsgNodeParts(body) == MsgSubstOf(body) \o MsgInnerOf(MsgSubstOf(body))
+
+\* ... each annotated with its base name: [p |-> part, b |-> base]
+MsgNodes(body) ==
+  LET ps == MsgNodeParts(body) IN [i \in 1..Len(ps) |-> [p |-> ps[i], b |-> PartBase(ps[i])]]
 
 MsgHasPlural(body) == \E i \in 1..Len(body) : body[i].k = "plural"
 MsgWellFormed(body) ==
@@ -199,10 +206,11 @@ MsgDedupeFrom(q, seen) ==
   ELSE MsgDedupeFrom(Tail(q), Append(seen, Head(q)))
 MsgDedupe(q) == MsgDedupeFrom(q, <<>>)
 
-MsgBases(nodes) == [i \in 1..Len(nodes) |-> PartBase(nodes[i])]
-MsgBaseOrder(nodes) == MsgDedupe(MsgBases(nodes))
-MsgBaseSet(nodes) == {PartBase(nodes[i]) : i \in 1..Len(nodes)}
-MsgGroupReps(nodes, b) == MsgDedupe(SelectSeq(nodes, LAMBDA n : PartBase(n) = b))
+MsgBaseOrder(nodes) == MsgDedupe([i \in 1..Len(nodes) |-> nodes[i].b])
+MsgBaseSet(nodes) == {nodes[i].b : i \in 1..Len(nodes)}
+\* representatives (parts) of group b, in order of first appearance
+MsgGroupReps(nodes, b) ==
+  LET g == SelectSeq(nodes, LAMBDA n : n.b = b) IN MsgDedupe([i \in 1..Len(g) |-> g[i].p])
 MsgPosIn(x, q) == CHOOSE i \in 1..Len(q) : q[i] = x
 
 \* the k-th integer N >= from such that base_N is not a base name
@@ -212,13 +220,19 @@ MsgNthFree(b, bases, k, from) ==
   ELSE IF k = 1 THEN from
   ELSE MsgNthFree(b, bases, k - 1, from + 1)
 
-NodeName(nodes, n) ==
-  LET b == PartBase(n) reps == MsgGroupReps(nodes, b) IN
+\* name of the i-th node
+MsgNameAt(nodes, i) ==
+  LET b == nodes[i].b reps == MsgGroupReps(nodes, b) IN
   IF Len(reps) = 1 THEN b
-  ELSE b \o "_" \o ToString(MsgNthFree(b, MsgBaseSet(nodes), MsgPosIn(n, reps), 1))
+  ELSE b \o "_" \o ToString(MsgNthFree(b, MsgBaseSet(nodes), MsgPosIn(nodes[i].p, reps), 1))
+
+MsgNamesOf(nodes) == [i \in 1..Len(nodes) |-> MsgNameAt(nodes, i)]
 
 \* names of the nodes of a body, in visiting order
-NodeNames(body) == LET ns == MsgNodes(body) IN [i \in 1..Len(ns) |-> NodeName(ns, ns[i])]
+NodeNames(body) == MsgNamesOf(MsgNodes(body))
+
+\* name of part p given the nodes and their names
+MsgNameOfPart(nodes, names, p) == names[CHOOSE i \in 1..Len(nodes) : nodes[i].p = p]
 
 \* structural features (used to classify cases and findings)
 MsgSuffixCollision(body) ==    \* some base_N a multi-group would try is a base name
@@ -228,31 +242,32 @@ MsgSuffixCollision(body) ==    \* some base_N a multi-group would try is a base 
 MsgMultiGroup(body) ==
   LET ns == MsgNodes(body) IN \E b \in MsgBaseSet(ns) : Len(MsgGroupReps(ns, b)) > 1
 MsgRepeats(body) ==            \* some placeholder occurs twice
-  LET ns == MsgNodes(body) IN \E i, j \in 1..Len(ns) : i < j /\ ns[i] = ns[j]
+  LET ns == MsgNodes(body) IN \E i, j \in 1..Len(ns) : i < j /\ ns[i].p = ns[j].p
 
 (***************************************************************************)
 (* Placeholder string.  braces = TRUE: {NAME}; FALSE: NAME (what the id of *)
 (* a message without plural is computed from).  A plural is always spelled *)
 (* {VAR,plural,=1{...}other{...}} with braced placeholders inside.         *)
 (***************************************************************************)
-RECURSIVE MsgPhBody(_, _, _)
-RECURSIVE MsgPhCases(_, _)
-MsgPhCases(nodes, cs) ==
+RECURSIVE MsgPhBody(_, _, _, _)
+RECURSIVE MsgPhCases(_, _, _)
+MsgPhCases(nodes, names, cs) ==
   IF cs = <<>> THEN ""
-  ELSE "=" \o ToString(Head(cs).v) \o "{" \o MsgPhBody(nodes, Head(cs).body, TRUE) \o "}"
-       \o MsgPhCases(nodes, Tail(cs))
-MsgPhBody(nodes, body, braces) ==
+  ELSE "=" \o ToString(Head(cs).v) \o "{" \o MsgPhBody(nodes, names, Head(cs).body, TRUE) \o "}"
+       \o MsgPhCases(nodes, names, Tail(cs))
+MsgPhBody(nodes, names, body, braces) ==
   IF body = <<>> THEN ""
   ELSE LET p == Head(body) IN
        (CASE p.k = "text" -> p.s
           [] p.k = "plural" ->
-               "{" \o NodeName(nodes, p) \o ",plural," \o MsgPhCases(nodes, p.cases)
-               \o "other{" \o MsgPhBody(nodes, p.dflt, TRUE) \o "}}"
-          [] OTHER -> IF braces THEN "{" \o NodeName(nodes, p) \o "}" ELSE NodeName(nodes, p))
-       \o MsgPhBody(nodes, Tail(body), braces)
+               "{" \o MsgNameOfPart(nodes, names, p) \o ",plural," \o MsgPhCases(nodes, names, p.cases)
+               \o "other{" \o MsgPhBody(nodes, names, p.dflt, TRUE) \o "}}"
+          [] OTHER -> IF braces THEN "{" \o MsgNameOfPart(nodes, names, p) \o "}"
+                      ELSE MsgNameOfPart(nodes, names, p))
+       \o MsgPhBody(nodes, names, Tail(body), braces)
 
-PlaceholderString(body) == MsgPhBody(MsgNodes(body), body, TRUE)
-MsgKeyString(body)      == MsgPhBody(MsgNodes(body), body, FALSE)
+PlaceholderString(body) == LET ns == MsgNodes(body) IN MsgPhBody(ns, MsgNamesOf(ns), body, TRUE)
+MsgKeyString(body)      == LET ns == MsgNodes(body) IN MsgPhBody(ns, MsgNamesOf(ns), body, FALSE)
 
 (***************************************************************************)
 (* What the id may depend on, and the id with an uninterpreted             *)
@@ -294,4 +309,43 @@ PoolC10 == <<
   MTag("<br/>"),                                    \* 11            BREAK
   MText("t"),                                       \* 12
   MText("u v") >>                                   \* 13
+
+(***************************************************************************)
+(* Bounded case families (descriptors, so that TLC enumerates index        *)
+(* sequences rather than sets of heterogeneous records).                   *)
+(*   [kind|->"flat", ix]                      ix : Seq(1..Len(PoolC10))    *)
+(*   [kind|->"plural", subj, cs, cb, db]      subject, case set, one index *)
+(*                                            sequence per case + default  *)
+(***************************************************************************)
+MsgInnerPool == << PoolC10[3], PoolC10[1], MPrint(MsgVar("n")), PoolC10[4], PoolC10[12], PoolC10[8] >>
+MsgPluralSubjects == << MsgVar("n"), MsgVar("x"), MsgBin("add", MsgVar("a"), MsgInt(1)) >>
+MsgCaseSets == << <<1>>, <<0, 1>>, <<2>> >>
+
+MsgIxSeqs(n, m) == UNION {[1..k -> 1..m] : k \in 0..n}
+
+MsgFamFlat(n) == {[kind |-> "flat", ix |-> ix] : ix \in MsgIxSeqs(n, Len(PoolC10))}
+
+MsgFamPlural(n) ==
+  UNION {
+    LET nc == Len(MsgCaseSets[j])
+        bodies == MsgIxSeqs(IF nc = 1 THEN n ELSE 1, Len(MsgInnerPool)) IN
+    {[kind |-> "plural", subj |-> s, cs |-> j, cb |-> cb, db |-> db] :
+        s \in 1..Len(MsgPluralSubjects), cb \in [1..nc -> bodies], db \in bodies}
+    : j \in 1..Len(MsgCaseSets)}
+
+MsgPick(pool, ix) == [i \in 1..Len(ix) |-> pool[ix[i]]]
+
+MsgFamBody(c) ==
+  IF c.kind = "flat" THEN MsgPick(PoolC10, c.ix)
+  ELSE << MPlural(MsgPluralSubjects[c.subj],
+                  [i \in 1..Len(c.cb) |-> MCase(MsgCaseSets[c.cs][i], MsgPick(MsgInnerPool, c.cb[i]))],
+                  MsgPick(MsgInnerPool, c.db)) >>
+
+RECURSIVE MsgIxStr(_)
+MsgIxStr(ix) == IF ix = <<>> THEN "" ELSE ToString(Head(ix)) \o "." \o MsgIxStr(Tail(ix))
+RECURSIVE MsgIxStrs(_)
+MsgIxStrs(q) == IF q = <<>> THEN "" ELSE MsgIxStr(Head(q)) \o "/" \o MsgIxStrs(Tail(q))
+MsgFamId(c) ==
+  IF c.kind = "flat" THEN "F" \o MsgIxStr(c.ix)
+  ELSE "P" \o ToString(c.subj) \o "c" \o ToString(c.cs) \o ":" \o MsgIxStrs(c.cb) \o "d" \o MsgIxStr(c.db)
 =============================================================================
